@@ -14,29 +14,35 @@ open PtModel PtModel.Neutron PtProofs.Neutron
 /-- **calculator = direct**, for every list of materials (any nesting), every weight vector of
     the same length (any sign, zeros included), every density and wavelength: the three SLDs of
     the calculator are those of `neutron_scattering(Σ wᵢ·mᵢ, density)`; `0, 0, 0` where the
-    direct calculation gives the vacuum tuple. -/
+    direct calculation gives the vacuum tuple; `(None, None, None)` where it does (a material
+    with an atom whose SLD is unknown – behaviour after fixes/composite-missing-data.patch). -/
 theorem composite_eq_direct (t : Tbl ℝ) (ms : List (Items ℝ)) (ws : List ℝ) (ρ w : ℝ)
-    (hlen : ws.length = ms.length) (hd : ∀ m ∈ ms, AllData t m.atoms) :
-    compositeSld t (ms.map Items.atoms) w ws ρ
-      = some (compOf (neutronScattering t (weighted ws ms).atoms ρ w)) :=
-  PtProofs.Neutron.composite_eq_direct t ms ws ρ w hlen hd
-
-/-- materials with an atom without neutron data: the calculator cannot be built (`none`) exactly
-    when the direct calculation returns `(None, None, None)` -/
-theorem composite_missing_iff (t : Tbl ℝ) (ms : List (Items ℝ)) (ws : List ℝ) (ρ w : ℝ)
     (hlen : ws.length = ms.length) :
-    compositeSld t (ms.map Items.atoms) w ws ρ = none ↔
-      neutronScattering t (weighted ws ms).atoms ρ w = .missing :=
-  PtProofs.Neutron.composite_missing_iff t ms ws ρ w hlen
+    compositeSld t (ms.map Items.atoms) w ws ρ
+      = compOf (neutronScattering t (weighted ws ms).atoms ρ w) :=
+  PtProofs.Neutron.composite_eq_direct t ms ws ρ w hlen
 
 /-- **zeros**: zero density or all weights zero gives `0, 0, 0` – from the calculator and from
     the direct calculation -/
 theorem zero_gives_zeros (t : Tbl ℝ) (ms : List (Items ℝ)) (ws : List ℝ) (ρ w : ℝ)
     (hlen : ws.length = ms.length) (hd : ∀ m ∈ ms, AllData t m.atoms)
     (hz : ρ = 0 ∨ ∀ x ∈ ws, x = 0) :
-    compositeSld t (ms.map Items.atoms) w ws ρ = some .zeros ∧
+    compositeSld t (ms.map Items.atoms) w ws ρ = .zeros ∧
       neutronSld t (weighted ws ms).atoms ρ w = some (0, 0, 0) :=
   PtProofs.Neutron.zero_gives_zeros t ms ws ρ w hlen hd hz
+
+/-- **vector wavelength**: entry `i` of the calculator built for a wavelength vector is the
+    calculator built for the `i`-th wavelength … -/
+theorem vector_is_map (t : Tbl ℝ) (mats : List (List (Atom × ℝ))) (ws weights : List ℝ)
+    (ρ : ℝ) (i : Nat) (hi : i < ws.length) :
+    (compositeSldV t mats ws weights ρ).get? i = some (compositeSld t mats ws[i] weights ρ) :=
+  PtProofs.Neutron.composite_vector_is_map t mats ws weights ρ i hi
+
+/-- … and the outputs are shaped like the wavelength argument -/
+theorem shape_follows_wavelength (t : Tbl ℝ) (mats : List (List (Atom × ℝ))) (ws weights : List ℝ)
+    (ρ : ℝ) (l : List (ℝ × ℝ × ℝ)) (h : compositeSldV t mats ws weights ρ = .ok l) :
+    l.length = ws.length :=
+  PtProofs.Neutron.composite_vector_length t mats ws weights ρ l h
 
 /-! ### non-vacuity: two materials over the example table of C03 -/
 
